@@ -19,6 +19,7 @@ import (
 	"strconv"
 	"strings"
 	"sync"
+	"sync/atomic"
 	"testing"
 	"time"
 
@@ -43,9 +44,12 @@ import (
 
 // Timing.  All classes are far from the decision boundary (the submitter
 // timeout): a node answers at once, after 10-100 ms ("slow"), or not before
-// timeout+2.5 s ("late") / never ("hang"); late and hanging nodes are released
-// as soon as the submitter has returned and delivery has been observed, so they
-// cost nothing on correct code.  Judgement uses measured instants only.
+// timeout+2.5 s ("late") / never ("hang").  A case is a *history*: 1-4
+// submissions against one service instance; slow nodes of a step are released
+// when the step has returned and delivery has been observed, late and hanging
+// nodes stay pending over the following steps and are released at the end of
+// the history, so they cost nothing on correct code.  Judgement uses measured
+// instants only.
 const (
 	timeout       = 400 * time.Millisecond
 	earlyBy       = 150 * time.Millisecond  // success is demanded only if an acceptable node had finished by then (guard band 250 ms)
@@ -134,47 +138,64 @@ type ItemDisp struct {
 	T int    `json:"t,omitempty"` // row of toleratedTable (tol) or realFailures (real)
 }
 
-// Node is the script of one beacon node double.
-type Node struct {
-	Client    string     `json:"client"`
-	Version   int        `json:"version"`
-	NoVersion bool       `json:"no_version,omitempty"` // the double does not implement NodeVersionProvider
-	Delay     string     `json:"delay"`                // none | slow | late | hang
-	SlowMs    int        `json:"slow_ms,omitempty"`
-	Outcome   string     `json:"outcome"` // accept | items | generic | nofailures | malformed
-	Variant   int        `json:"variant,omitempty"`
-	Items     []ItemDisp `json:"items,omitempty"` // Outcome == items: per item of the payload
+// NodeID is what a beacon node double is for the whole history.
+type NodeID struct {
+	Client    string `json:"client"`
+	Version   int    `json:"version"`
+	NoVersion bool   `json:"no_version,omitempty"` // the double does not implement NodeVersionProvider
 }
 
-// Case is one submission.
+// NodeScript is what a node does during one step.
+type NodeScript struct {
+	Delay       string     `json:"delay"` // none | slow | late | hang
+	SlowMs      int        `json:"slow_ms,omitempty"`
+	Outcome     string     `json:"outcome"` // accept | items | generic | nofailures | malformed
+	Variant     int        `json:"variant,omitempty"`
+	Items       []ItemDisp `json:"items,omitempty"`        // Outcome == items: per item of the payload
+	VersionFail bool       `json:"version_fail,omitempty"` // NodeVersion fails while this step is the current one
+	CtxAware    bool       `json:"ctx_aware,omitempty"`    // the request is aborted when the caller's context is done (as the http client does)
+}
+
+// Step is one submission.
+type Step struct {
+	Kind   string       `json:"kind"`
+	Items  int          `json:"items"`
+	Cancel string       `json:"cancel,omitempty"` // caller-side fault: "" | pre | 5ms | 50ms | 200ms | after
+	Nodes  []NodeScript `json:"nodes"`
+}
+
+// Case is a history of submissions against one service instance.
 type Case struct {
-	Service string `json:"service"` // multinode | immediate
-	Kind    string `json:"kind"`
-	PC      int    `json:"pc"`
-	Items   int    `json:"items"`
-	Nodes   []Node `json:"nodes"`
+	Service string   `json:"service"` // multinode | immediate
+	PC      int      `json:"pc"`
+	Nodes   []NodeID `json:"nodes"`
+	Steps   []Step   `json:"steps"`
 }
 
-// classOf is the generator-side label of a node: its class and whether the
-// statement counts a completed answer of this node as "accepted or rejected
-// only for a tolerated reason".
-func classOf(kind string, n *Node) (string, bool) {
+var cancelAt = map[string]time.Duration{"pre": 0, "5ms": 5 * time.Millisecond, "50ms": 50 * time.Millisecond, "200ms": 200 * time.Millisecond, "after": timeout + 150*time.Millisecond}
+
+// classOf is the generator-side label of a node in a step: its class and
+// whether the statement counts a completed answer of this node as "accepted or
+// rejected only for a tolerated reason": "yes", "no", or "either" (tolerated
+// text while the node does not tell which client it is: Vouch cannot know that
+// the reason is one it tolerates *from that client*, so both answers are taken).
+func classOf(kind string, id *NodeID, n *NodeScript) (string, string) {
 	switch n.Outcome {
 	case "accept":
-		return "accept", true
+		return "accept", "yes"
 	case "generic":
-		return "reject", false
+		return "reject", "no"
 	case "nofailures":
-		return "nofailures", false
+		return "nofailures", "no"
 	case "malformed":
-		return "malformed", false
+		return "malformed", "no"
 	}
 	var tol, foreign, real int
 	for _, d := range n.Items {
 		switch d.D {
 		case "tol":
 			row := toleratedTable[d.T]
-			if row.Kind == kind && row.Client == n.Client && !n.NoVersion {
+			if row.Kind == kind && row.Client == id.Client && !id.NoVersion {
 				tol++
 			} else {
 				foreign++
@@ -185,45 +206,67 @@ func classOf(kind string, n *Node) (string, bool) {
 	}
 	switch {
 	case tol+foreign+real == 0:
-		return "accept", true
+		return "accept", "yes"
 	case foreign+real == 0:
-		return "tolerated", true
+		if n.VersionFail {
+			return "tolerated-version-unavailable", "either"
+		}
+		return "tolerated", "yes"
 	case tol > 0:
-		return "mixed", false
+		return "mixed", "no"
 	case foreign > 0:
-		return "misplaced", false
+		return "misplaced", "no"
 	default:
-		return "reject", false
+		return "reject", "no"
 	}
 }
 
 // ---------------------------------------------------------------- generator
 
-func genNode(t *rapid.T, kind string, items int, immediateSvc bool) Node {
-	n := Node{
-		Client:  rapid.SampledFrom([]string{"lighthouse", "lighthouse", "lighthouse", "teku", "teku", "nimbus", "nimbus", "prysm", "lodestar", "unknown"}).Draw(t, "client"),
-		Version: rapid.IntRange(0, 1).Draw(t, "version"),
-	}
-	// half of the time prefer a client that has a tolerated reason for this kind
-	var withRow []string
-	for _, row := range toleratedTable {
-		if row.Kind == kind {
-			withRow = append(withRow, row.Client)
+func weighted(t *rapid.T, label string, pairs ...any) string {
+	var pool []string
+	for i := 0; i < len(pairs); i += 2 {
+		for k := 0; k < pairs[i+1].(int); k++ {
+			pool = append(pool, pairs[i].(string))
 		}
 	}
-	if len(withRow) > 0 && rapid.Bool().Draw(t, "clientWithToleration") {
-		n.Client = rapid.SampledFrom(withRow).Draw(t, "tolClient")
-	}
-	n.NoVersion = rapid.IntRange(0, 14).Draw(t, "noVersion") == 0
-	if immediateSvc {
-		n.Delay = rapid.SampledFrom([]string{"none", "none", "slow"}).Draw(t, "delay")
-	} else {
-		n.Delay = rapid.SampledFrom([]string{"none", "none", "none", "none", "none", "slow", "slow", "slow", "late", "hang", "hang"}).Draw(t, "delay")
+	return rapid.SampledFrom(pool).Draw(t, label)
+}
+
+// persona only steers the draws of a node over the steps of a history (so that
+// "the same node hangs / tolerates / rejects again" is frequent); it is not
+// part of the case.
+func genScript(t *rapid.T, kind string, items int, id *NodeID, persona string, flaky bool, immediateSvc bool, cancelled bool) NodeScript {
+	n := NodeScript{}
+	switch {
+	case immediateSvc:
+		n.Delay = weighted(t, "delay", "none", 2, "slow", 1)
+	case persona == "hanger":
+		n.Delay = weighted(t, "delay", "none", 1, "slow", 1, "late", 2, "hang", 6)
+	default:
+		n.Delay = weighted(t, "delay", "none", 5, "slow", 3, "late", 1, "hang", 2)
 	}
 	if n.Delay == "slow" {
 		n.SlowMs = rapid.IntRange(10, 100).Draw(t, "slowMs")
 	}
-	n.Outcome = rapid.SampledFrom([]string{"accept", "accept", "accept", "items", "items", "items", "items", "items", "items", "generic", "generic", "nofailures", "nofailures", "malformed", "malformed"}).Draw(t, "outcome")
+	if flaky {
+		n.VersionFail = rapid.Bool().Draw(t, "versionFail")
+	} else {
+		n.VersionFail = rapid.IntRange(0, 29).Draw(t, "versionFail") == 0
+	}
+	if cancelled {
+		n.CtxAware = rapid.Bool().Draw(t, "ctxAware")
+	}
+	switch persona {
+	case "accepter":
+		n.Outcome = weighted(t, "outcome", "accept", 8, "items", 2, "generic", 1, "nofailures", 1, "malformed", 1)
+	case "tolerator":
+		n.Outcome = weighted(t, "outcome", "accept", 1, "items", 10, "generic", 1, "nofailures", 1, "malformed", 1)
+	case "rejecter":
+		n.Outcome = weighted(t, "outcome", "items", 3, "generic", 3, "nofailures", 3, "malformed", 3)
+	default:
+		n.Outcome = weighted(t, "outcome", "accept", 3, "items", 6, "generic", 2, "nofailures", 2, "malformed", 2)
+	}
 	switch n.Outcome {
 	case "generic":
 		n.Variant = rapid.IntRange(0, nGeneric-1).Draw(t, "variant")
@@ -234,13 +277,21 @@ func genNode(t *rapid.T, kind string, items int, immediateSvc bool) Node {
 	case "items":
 		var valid, foreign []int
 		for i, row := range toleratedTable {
-			if row.Kind == kind && row.Client == n.Client {
+			if row.Kind == kind && row.Client == id.Client {
 				valid = append(valid, i)
 			} else {
 				foreign = append(foreign, i)
 			}
 		}
-		mode := rapid.SampledFrom([]string{"tolerated", "tolerated", "tolerated", "misplaced", "mixed", "mixed", "mixed", "real"}).Draw(t, "itemsMode")
+		var mode string
+		switch persona {
+		case "tolerator":
+			mode = weighted(t, "itemsMode", "tolerated", 8, "misplaced", 1, "mixed", 2, "real", 1)
+		case "rejecter":
+			mode = weighted(t, "itemsMode", "misplaced", 2, "mixed", 3, "real", 3)
+		default:
+			mode = weighted(t, "itemsMode", "tolerated", 3, "misplaced", 1, "mixed", 3, "real", 1)
+		}
 		if mode == "tolerated" && len(valid) == 0 {
 			// a node of this client has no tolerated reason for this kind: the text of another client / kind
 			mode = "misplaced"
@@ -270,11 +321,11 @@ func genNode(t *rapid.T, kind string, items int, immediateSvc bool) Node {
 			default:
 				switch mode {
 				case "tolerated", "misplaced":
-					what = rapid.SampledFrom([]string{"ok", "ok", "tol"}).Draw(t, "disp")
+					what = weighted(t, "disp", "ok", 2, "tol", 1)
 				case "real":
-					what = rapid.SampledFrom([]string{"ok", "ok", "real"}).Draw(t, "disp")
+					what = weighted(t, "disp", "ok", 2, "real", 1)
 				default:
-					what = rapid.SampledFrom([]string{"ok", "ok", "ok", "tol", "real"}).Draw(t, "disp")
+					what = weighted(t, "disp", "ok", 3, "tol", 1, "real", 1)
 				}
 			}
 			switch what {
@@ -290,23 +341,78 @@ func genNode(t *rapid.T, kind string, items int, immediateSvc bool) Node {
 	return n
 }
 
-func genCase(t *rapid.T) Case {
-	c := Case{
-		Service: rapid.SampledFrom([]string{"multinode", "multinode", "multinode", "multinode", "multinode", "multinode", "multinode", "multinode", "multinode", "multinode", "multinode", "immediate"}).Draw(t, "service"),
-		Kind: rapid.SampledFrom([]string{"attestations", "attestations", "attestations", "attestations", "syncmessages", "syncmessages", "syncmessages",
-			"contributions", "contributions", "contributions", "proposal", "aggregates", "beaconsubs", "syncsubs", "preparations"}).Draw(t, "kind"),
+func genKind(t *rapid.T, uniform bool) string {
+	if uniform {
+		return rapid.SampledFrom(kinds).Draw(t, "kind")
 	}
+	return weighted(t, "kind", "attestations", 3, "syncmessages", 2, "contributions", 2, "proposal", 1, "aggregates", 1, "beaconsubs", 1, "syncsubs", 1, "preparations", 1)
+}
+
+func genCase(t *rapid.T) Case {
+	c := Case{Service: weighted(t, "service", "multinode", 11, "immediate", 1)}
+	imm := c.Service == "immediate"
 	nNodes := rapid.IntRange(1, 5).Draw(t, "nodes")
-	if c.Service == "immediate" {
+	if imm {
 		nNodes = 1
 	}
-	c.PC = rapid.IntRange(1, nNodes+3).Draw(t, "pc")
-	c.Items = rapid.IntRange(1, 3*c.PC+2).Draw(t, "items")
-	if c.Kind == "proposal" {
-		c.Items = 1
+	// the isolation clause is about "process concurrency not below the number of nodes": the boundary is frequent
+	if rapid.IntRange(0, 9).Draw(t, "pcAtBoundary") < 3 {
+		c.PC = nNodes
+	} else {
+		c.PC = rapid.IntRange(1, nNodes+3).Draw(t, "pc")
 	}
+	nSteps := rapid.SampledFrom([]int{1, 1, 1, 1, 2, 2, 2, 3, 3, 4}).Draw(t, "steps")
+	sameKind := rapid.IntRange(0, 9).Draw(t, "sameKind") < 6
+	var kindsUsed []string
+	first := genKind(t, nSteps > 1 && sameKind)
+	for s := 0; s < nSteps; s++ {
+		k := first
+		if s > 0 && !sameKind {
+			k = genKind(t, false)
+		}
+		kindsUsed = append(kindsUsed, k)
+	}
+	// nodes: identity, persona
+	var withRow []string
+	for _, row := range toleratedTable {
+		for _, k := range kindsUsed {
+			if row.Kind == k {
+				withRow = append(withRow, row.Client)
+			}
+		}
+	}
+	personas := make([]string, nNodes)
+	flaky := make([]bool, nNodes)
 	for i := 0; i < nNodes; i++ {
-		c.Nodes = append(c.Nodes, genNode(t, c.Kind, c.Items, c.Service == "immediate"))
+		id := NodeID{
+			Client:  weighted(t, "client", "lighthouse", 3, "teku", 2, "nimbus", 2, "prysm", 1, "lodestar", 1, "unknown", 1),
+			Version: rapid.IntRange(0, 1).Draw(t, "version"),
+		}
+		// half of the time prefer a client that has a tolerated reason for a kind of this history
+		if len(withRow) > 0 && rapid.Bool().Draw(t, "clientWithToleration") {
+			id.Client = rapid.SampledFrom(withRow).Draw(t, "tolClient")
+		}
+		id.NoVersion = rapid.IntRange(0, 14).Draw(t, "noVersion") == 0
+		c.Nodes = append(c.Nodes, id)
+		personas[i] = weighted(t, "persona", "any", 4, "accepter", 2, "tolerator", 3, "rejecter", 3, "hanger", 3)
+		if imm && personas[i] == "hanger" {
+			personas[i] = "any"
+		}
+		flaky[i] = rapid.IntRange(0, 3).Draw(t, "flakyVersion") == 0
+	}
+	for s := 0; s < nSteps; s++ {
+		st := Step{Kind: kindsUsed[s]}
+		st.Items = rapid.IntRange(1, 3*c.PC+2).Draw(t, "items")
+		if st.Kind == "proposal" {
+			st.Items = 1
+		}
+		if !imm && rapid.IntRange(0, 3).Draw(t, "cancelled") == 0 {
+			st.Cancel = rapid.SampledFrom([]string{"pre", "5ms", "5ms", "50ms", "50ms", "200ms", "after"}).Draw(t, "cancel")
+		}
+		for i := 0; i < nNodes; i++ {
+			st.Nodes = append(st.Nodes, genScript(t, st.Kind, st.Items, &c.Nodes[i], personas[i], flaky[i], imm, st.Cancel != ""))
+		}
+		c.Steps = append(c.Steps, st)
 	}
 	return c
 }
@@ -314,19 +420,22 @@ func genCase(t *rapid.T) Case {
 // ------------------------------------------------------------------ doubles
 
 type callRec struct {
-	method string
-	ids    []int
-	enter  time.Duration
-	leave  time.Duration // 0 while in flight
+	step    int
+	ids     []int
+	enter   time.Duration // since the start of the step the call belongs to
+	leave   time.Duration // 0 while in flight
+	aborted bool          // the request was abandoned because the caller's context was done
 }
 
 type world struct {
-	c       *Case
-	p       *payload
-	start   time.Time
-	release chan struct{}
-	mu      sync.Mutex
-	wrong   []string // calls that must not have happened (decoy, wrong method, foreign object)
+	c           *Case
+	pls         []*payload
+	starts      []time.Time
+	cur         atomic.Int64    // step whose submission is (or was last) running: what NodeVersion answers
+	stepRelease []chan struct{} // closed when a step has returned and delivery was observed: slow nodes stop waiting
+	releaseAll  chan struct{}   // closed at the end of the history: late and hanging nodes answer
+	mu          sync.Mutex
+	wrong       []string // calls that must not have happened (decoy, wrong method, foreign object)
 }
 
 func (w *world) flag(format string, args ...any) {
@@ -340,7 +449,8 @@ func (w *world) flag(format string, args ...any) {
 type node struct {
 	w     *world
 	name  string
-	spec  *Node // nil: decoy (configured for the other submission kinds; must never be called)
+	idx   int
+	id    *NodeID // nil: decoy (configured for the submission kinds the history does not use; must never be called)
 	mu    sync.Mutex
 	calls []*callRec
 }
@@ -351,11 +461,14 @@ func (n nodeV) NodeVersion(_ context.Context, opts *api.NodeVersionOpts) (*api.R
 	if opts == nil {
 		return nil, errors.Join(errors.New("no options specified"), eth2client.ErrInvalidOptions)
 	}
-	v := "decoy/v0"
-	if n.spec != nil {
-		v = versions[n.spec.Client][n.spec.Version]
+	if n.id == nil {
+		return &api.Response[string]{Data: "decoy/v0", Metadata: map[string]any{}}, nil
 	}
-	return &api.Response[string]{Data: v, Metadata: map[string]any{}}, nil
+	if n.w.c.Steps[n.w.cur.Load()].Nodes[n.idx].VersionFail {
+		return nil, errors.Join(errors.New("failed to call GET endpoint"),
+			&url.Error{Op: "Get", URL: "http://" + n.name + ":5052/eth/v1/node/version", Err: errors.New("dial tcp 10.0.0.1:5052: connect: connection refused")})
+	}
+	return &api.Response[string]{Data: versions[n.id.Client][n.id.Version], Metadata: map[string]any{}}, nil
 }
 
 func (n *node) Name() string    { return n.name }
@@ -433,64 +546,121 @@ func failureBody(client string, idx []int, msgs []string) string {
 	return string(js)
 }
 
+func ctxErr(kind string, err error) error {
+	ep := endpoints[kind]
+	return errors.Join(errors.New(ep[0]), errors.Join(errors.New("failed to call POST endpoint"),
+		&url.Error{Op: "Post", URL: "http://node:5052" + ep[1], Err: err}))
+}
+
+// locate finds the step a call belongs to (by the identity of the offered
+// objects) and the item numbers offered; objects that were never submitted are
+// reported as -1.
+func locate[T comparable](w *world, offered []T, submitted func(*payload) []T) (int, []int) {
+	step := -1
+	ids := make([]int, len(offered))
+	for i, o := range offered {
+		ids[i] = -1
+		for s, p := range w.pls {
+			if p == nil || (step >= 0 && s != step) {
+				continue
+			}
+			for j, x := range submitted(p) {
+				if o == x {
+					ids[i] = j
+					step = s
+					break
+				}
+			}
+			if ids[i] >= 0 {
+				break
+			}
+		}
+	}
+	return step, ids
+}
+
 // serve is the body of every submit method.
-func (n *node) serve(method string, ids []int) error {
+func (n *node) serve(ctx context.Context, method string, step int, ids []int) error {
 	w := n.w
-	if n.spec == nil {
-		w.flag("%s: %s called on a node that is not configured for %s", n.name, method, w.c.Kind)
+	if n.id == nil {
+		w.flag("%s: %s called on a node that is not configured for it", n.name, method)
 		return errors.New("decoy")
 	}
-	if method != w.c.Kind {
-		w.flag("%s: %s called during a %s submission", n.name, method, w.c.Kind)
+	if step < 0 {
+		w.flag("%s: %s called with objects that were never submitted", n.name, method)
+		return errors.New("foreign objects")
+	}
+	st := &w.c.Steps[step]
+	if method != st.Kind {
+		w.flag("%s: %s called with the payload of a %s submission", n.name, method, st.Kind)
 		return errors.New("wrong method")
 	}
-	rec := &callRec{method: method, ids: ids, enter: time.Since(w.start)}
+	script := &st.Nodes[n.idx]
+	start := w.starts[step]
+	rec := &callRec{step: step, ids: ids, enter: time.Since(start)}
 	n.mu.Lock()
 	n.calls = append(n.calls, rec)
 	n.mu.Unlock()
 
-	switch n.spec.Delay {
-	case "slow":
-		d := time.Duration(n.spec.SlowMs) * time.Millisecond
-		if w.c.Service == "immediate" {
-			time.Sleep(d)
-		} else {
-			select {
-			case <-time.After(d):
-			case <-w.release:
+	var ctxDone <-chan struct{}
+	aborted := false
+	if script.CtxAware {
+		ctxDone = ctx.Done()
+		if ctx.Err() != nil {
+			aborted = true
+		}
+	}
+	if !aborted {
+		switch script.Delay {
+		case "slow":
+			d := time.Duration(script.SlowMs) * time.Millisecond
+			if w.c.Service == "immediate" {
+				time.Sleep(d)
+			} else {
+				select {
+				case <-time.After(d):
+				case <-w.stepRelease[step]:
+				case <-ctxDone:
+					aborted = true
+				}
 			}
-		}
-	case "late":
-		select {
-		case <-time.After(time.Until(w.start.Add(lateAfter))):
-		case <-w.release:
-		}
-	case "hang":
-		select {
-		case <-time.After(hangCeiling):
-		case <-w.release:
+		case "late":
+			select {
+			case <-time.After(time.Until(start.Add(lateAfter))):
+			case <-w.releaseAll:
+			case <-ctxDone:
+				aborted = true
+			}
+		case "hang":
+			select {
+			case <-time.After(hangCeiling):
+			case <-w.releaseAll:
+			case <-ctxDone:
+				aborted = true
+			}
 		}
 	}
 
 	var err error
-	switch n.spec.Outcome {
-	case "accept":
-	case "generic":
-		err = genericErr(w.c.Kind, n.spec.Variant)
-	case "nofailures":
-		b := noFailureBodies[n.spec.Variant]
-		err = apiErr(w.c.Kind, b.Status, b.Data)
-	case "malformed":
-		b := malformedBodies[n.spec.Variant]
-		err = apiErr(w.c.Kind, b.Status, b.Data)
-	case "items":
+	switch {
+	case aborted:
+		err = ctxErr(st.Kind, context.Cause(ctx))
+	case script.Outcome == "generic":
+		err = genericErr(st.Kind, script.Variant)
+	case script.Outcome == "nofailures":
+		b := noFailureBodies[script.Variant]
+		err = apiErr(st.Kind, b.Status, b.Data)
+	case script.Outcome == "malformed":
+		b := malformedBodies[script.Variant]
+		err = apiErr(st.Kind, b.Status, b.Data)
+	case script.Outcome == "items":
 		var idx []int
 		var msgs []string
 		for pos, id := range ids {
-			if id < 0 || id >= len(n.spec.Items) {
+			if id < 0 || id >= len(script.Items) {
 				continue
 			}
-			switch d := n.spec.Items[id]; d.D {
+			switch d := script.Items[id]; d.D {
 			case "tol":
 				idx = append(idx, pos)
 				msgs = append(msgs, toleratedTable[d.T].Text)
@@ -500,31 +670,46 @@ func (n *node) serve(method string, ids []int) error {
 			}
 		}
 		if len(idx) > 0 {
-			err = apiErr(w.c.Kind, 400, failureBody(n.spec.Client, idx, msgs))
+			err = apiErr(st.Kind, 400, failureBody(n.id.Client, idx, msgs))
 		}
 	}
 	n.mu.Lock()
-	rec.leave = time.Since(w.start)
-	if rec.leave == 0 {
+	rec.aborted = aborted
+	rec.leave = time.Since(start)
+	if rec.leave <= 0 {
 		rec.leave = 1
 	}
 	n.mu.Unlock()
 	return err
 }
 
-// snapshot returns (ids offered so far, calls in flight, instant the last call returned).
-func (n *node) snapshot() (ids []int, inflight int, lastLeave time.Duration, ncalls int) {
+type snap struct {
+	ids       []int
+	inflight  int
+	lastLeave time.Duration
+	ncalls    int
+	aborted   bool
+}
+
+// snapshot summarises the calls of one step.
+func (n *node) snapshot(step int) snap {
+	var s snap
 	n.mu.Lock()
 	defer n.mu.Unlock()
 	for _, r := range n.calls {
-		ids = append(ids, r.ids...)
+		if r.step != step {
+			continue
+		}
+		s.ncalls++
+		s.ids = append(s.ids, r.ids...)
+		s.aborted = s.aborted || r.aborted
 		if r.leave == 0 {
-			inflight++
-		} else if r.leave > lastLeave {
-			lastLeave = r.leave
+			s.inflight++
+		} else if r.leave > s.lastLeave {
+			s.lastLeave = r.leave
 		}
 	}
-	return ids, inflight, lastLeave, len(n.calls)
+	return s
 }
 
 // payload holds the submitted objects; item i carries the number i in one of
@@ -551,7 +736,7 @@ func att(i int) *phase0.Attestation {
 	}
 }
 
-func newPayload(c *Case) *payload {
+func newPayload(c *Step, pc int) *payload {
 	p := &payload{}
 	for i := 0; i < c.Items; i++ {
 		switch c.Kind {
@@ -561,7 +746,7 @@ func newPayload(c *Case) *payload {
 			// phase0/altair proposals are refused by this go-eth2-client version itself
 			// (VersionedSignedProposal.Slot: unsupported version), so only the forks a
 			// live chain can deliver today are generated.
-			switch c.PC % 4 {
+			switch pc % 4 {
 			case 0:
 				p.proposal = &api.VersionedSignedProposal{Version: spec.DataVersionBellatrix,
 					Bellatrix: &bellatrix.SignedBeaconBlock{Message: &bellatrix.BeaconBlock{Slot: 12345, ProposerIndex: 77}}}
@@ -598,59 +783,53 @@ func (p *payload) dump() string {
 	return fmt.Sprintf("%v|%v|%v|%v|%v|%v|%v|%v", p.atts, p.proposal, p.aggs, p.msgs, p.contribs, p.bsubs, p.ssubs, p.preps)
 }
 
-// idsOf maps offered objects back to item numbers; an object that was not
-// submitted is reported as -1.
-func idsOf[T comparable](offered []T, submitted []T) []int {
-	ids := make([]int, len(offered))
-	for i, o := range offered {
-		ids[i] = -1
-		for j, s := range submitted {
-			if o == s {
-				ids[i] = j
-				break
+func (n *node) SubmitAttestations(ctx context.Context, in []*phase0.Attestation) error {
+	step, ids := locate(n.w, in, func(p *payload) []*phase0.Attestation { return p.atts })
+	return n.serve(ctx, "attestations", step, ids)
+}
+
+func (n *node) SubmitProposal(ctx context.Context, opts *api.SubmitProposalOpts) error {
+	step, ids := -1, []int{-1}
+	if opts != nil && opts.Proposal != nil {
+		step, ids = locate(n.w, []*api.VersionedSignedProposal{opts.Proposal}, func(p *payload) []*api.VersionedSignedProposal {
+			if p.proposal == nil {
+				return nil
 			}
-		}
+			return []*api.VersionedSignedProposal{p.proposal}
+		})
 	}
-	return ids
+	return n.serve(ctx, "proposal", step, ids)
 }
 
-func (n *node) SubmitAttestations(_ context.Context, in []*phase0.Attestation) error {
-	return n.serve("attestations", idsOf(in, n.w.pl().atts))
+func (n *node) SubmitAggregateAttestations(ctx context.Context, in []*phase0.SignedAggregateAndProof) error {
+	step, ids := locate(n.w, in, func(p *payload) []*phase0.SignedAggregateAndProof { return p.aggs })
+	return n.serve(ctx, "aggregates", step, ids)
 }
 
-func (n *node) SubmitProposal(_ context.Context, opts *api.SubmitProposalOpts) error {
-	ids := []int{-1}
-	if opts != nil && opts.Proposal == n.w.pl().proposal && opts.Proposal != nil {
-		ids[0] = 0
-	}
-	return n.serve("proposal", ids)
+func (n *node) SubmitSyncCommitteeMessages(ctx context.Context, in []*altair.SyncCommitteeMessage) error {
+	step, ids := locate(n.w, in, func(p *payload) []*altair.SyncCommitteeMessage { return p.msgs })
+	return n.serve(ctx, "syncmessages", step, ids)
 }
 
-func (n *node) SubmitAggregateAttestations(_ context.Context, in []*phase0.SignedAggregateAndProof) error {
-	return n.serve("aggregates", idsOf(in, n.w.pl().aggs))
+func (n *node) SubmitSyncCommitteeContributions(ctx context.Context, in []*altair.SignedContributionAndProof) error {
+	step, ids := locate(n.w, in, func(p *payload) []*altair.SignedContributionAndProof { return p.contribs })
+	return n.serve(ctx, "contributions", step, ids)
 }
 
-func (n *node) SubmitSyncCommitteeMessages(_ context.Context, in []*altair.SyncCommitteeMessage) error {
-	return n.serve("syncmessages", idsOf(in, n.w.pl().msgs))
+func (n *node) SubmitBeaconCommitteeSubscriptions(ctx context.Context, in []*apiv1.BeaconCommitteeSubscription) error {
+	step, ids := locate(n.w, in, func(p *payload) []*apiv1.BeaconCommitteeSubscription { return p.bsubs })
+	return n.serve(ctx, "beaconsubs", step, ids)
 }
 
-func (n *node) SubmitSyncCommitteeContributions(_ context.Context, in []*altair.SignedContributionAndProof) error {
-	return n.serve("contributions", idsOf(in, n.w.pl().contribs))
+func (n *node) SubmitSyncCommitteeSubscriptions(ctx context.Context, in []*apiv1.SyncCommitteeSubscription) error {
+	step, ids := locate(n.w, in, func(p *payload) []*apiv1.SyncCommitteeSubscription { return p.ssubs })
+	return n.serve(ctx, "syncsubs", step, ids)
 }
 
-func (n *node) SubmitBeaconCommitteeSubscriptions(_ context.Context, in []*apiv1.BeaconCommitteeSubscription) error {
-	return n.serve("beaconsubs", idsOf(in, n.w.pl().bsubs))
+func (n *node) SubmitProposalPreparations(ctx context.Context, in []*apiv1.ProposalPreparation) error {
+	step, ids := locate(n.w, in, func(p *payload) []*apiv1.ProposalPreparation { return p.preps })
+	return n.serve(ctx, "preparations", step, ids)
 }
-
-func (n *node) SubmitSyncCommitteeSubscriptions(_ context.Context, in []*apiv1.SyncCommitteeSubscription) error {
-	return n.serve("syncsubs", idsOf(in, n.w.pl().ssubs))
-}
-
-func (n *node) SubmitProposalPreparations(_ context.Context, in []*apiv1.ProposalPreparation) error {
-	return n.serve("preparations", idsOf(in, n.w.pl().preps))
-}
-
-func (w *world) pl() *payload { return w.p }
 
 type allSubmitters interface {
 	eth2client.Service
@@ -665,15 +844,16 @@ type allSubmitters interface {
 }
 
 func (n *node) iface() allSubmitters {
-	if n.spec != nil && n.spec.NoVersion {
+	if n.id != nil && n.id.NoVersion {
 		return n
 	}
 	return nodeV{n}
 }
 
-func mapOf[T any](kind, want string, nodes []*node, decoy *node) map[string]T {
+// mapOf: the nodes for the kinds the history uses, the decoy for the others.
+func mapOf[T any](used map[string]bool, want string, nodes []*node, decoy *node) map[string]T {
 	m := map[string]T{}
-	if kind == want {
+	if used[want] {
 		for _, n := range nodes {
 			m[n.name] = n.iface().(T)
 		}
@@ -720,25 +900,31 @@ func submit(ctx context.Context, s submitter, kind string, p *payload) error {
 
 type nodeObs struct {
 	class     string
-	ok        bool
+	ok        string // yes | no | either
 	ids       []int
 	full      bool          // offered exactly the submitted items
-	fullEarly bool          // ... already before late/hanging nodes were released
+	sound     bool          // offered only submitted items, none twice
+	fullEarly bool          // full already while late/hanging nodes were still pending
 	finished  time.Duration // instant the last call returned (valid if done)
 	done      bool
 	ncalls    int
 }
 
-type obs struct {
-	harness    string
+type stepObs struct {
+	ran        bool
 	returned   bool
 	r          time.Duration
 	err        error
 	panicked   string
 	nodes      []nodeObs
-	wrong      []string
 	mutated    bool
 	releasedAt time.Duration
+}
+
+type obs struct {
+	harness string
+	steps   []stepObs
+	wrong   []string
 }
 
 func exact(ids []int, items int) bool {
@@ -755,72 +941,104 @@ func exact(ids []int, items int) bool {
 	return true
 }
 
+func soundIDs(ids []int, items int) bool {
+	seen := map[int]bool{}
+	for _, v := range ids {
+		if v < 0 || v >= items || seen[v] {
+			return false
+		}
+		seen[v] = true
+	}
+	return true
+}
+
 func validCase(c *Case) string {
 	if c.Service != "multinode" && c.Service != "immediate" {
 		return "service"
 	}
-	if _, ok := endpoints[c.Kind]; !ok {
-		return "kind"
-	}
-	if c.PC < 1 || c.Items < 1 || len(c.Nodes) < 1 || (c.Service == "immediate" && len(c.Nodes) != 1) || (c.Kind == "proposal" && c.Items != 1) {
+	if c.PC < 1 || len(c.Nodes) < 1 || len(c.Steps) < 1 || len(c.Steps) > 8 || (c.Service == "immediate" && len(c.Nodes) != 1) {
 		return "sizes"
 	}
 	for i := range c.Nodes {
-		n := &c.Nodes[i]
-		if _, ok := versions[n.Client]; !ok || n.Version < 0 || n.Version > 1 {
+		if _, ok := versions[c.Nodes[i].Client]; !ok || c.Nodes[i].Version < 0 || c.Nodes[i].Version > 1 {
 			return "client"
 		}
-		switch n.Outcome {
-		case "accept":
-		case "generic":
-			if n.Variant < 0 || n.Variant >= nGeneric {
-				return "variant"
-			}
-		case "nofailures":
-			if n.Variant < 0 || n.Variant >= len(noFailureBodies) {
-				return "variant"
-			}
-		case "malformed":
-			if n.Variant < 0 || n.Variant >= len(malformedBodies) {
-				return "variant"
-			}
-		case "items":
-			if len(n.Items) != c.Items {
-				return "items"
-			}
-			for _, d := range n.Items {
-				if d.D == "tol" && (d.T < 0 || d.T >= len(toleratedTable)) || d.D == "real" && (d.T < 0 || d.T >= len(realFailures)) {
-					return "disp"
-				}
-			}
-		default:
-			return "outcome"
+	}
+	for s := range c.Steps {
+		st := &c.Steps[s]
+		if _, ok := endpoints[st.Kind]; !ok {
+			return "kind"
 		}
-		switch n.Delay {
-		case "none", "slow":
-		case "late", "hang":
-			if c.Service == "immediate" {
+		if st.Items < 1 || len(st.Nodes) != len(c.Nodes) || (st.Kind == "proposal" && st.Items != 1) {
+			return "step sizes"
+		}
+		if _, ok := cancelAt[st.Cancel]; !ok && st.Cancel != "" {
+			return "cancel"
+		}
+		if st.Cancel != "" && c.Service == "immediate" {
+			return "cancel"
+		}
+		for i := range st.Nodes {
+			n := &st.Nodes[i]
+			switch n.Outcome {
+			case "accept":
+			case "generic":
+				if n.Variant < 0 || n.Variant >= nGeneric {
+					return "variant"
+				}
+			case "nofailures":
+				if n.Variant < 0 || n.Variant >= len(noFailureBodies) {
+					return "variant"
+				}
+			case "malformed":
+				if n.Variant < 0 || n.Variant >= len(malformedBodies) {
+					return "variant"
+				}
+			case "items":
+				if len(n.Items) != st.Items {
+					return "items"
+				}
+				for _, d := range n.Items {
+					if d.D == "tol" && (d.T < 0 || d.T >= len(toleratedTable)) || d.D == "real" && (d.T < 0 || d.T >= len(realFailures)) {
+						return "disp"
+					}
+				}
+			default:
+				return "outcome"
+			}
+			switch n.Delay {
+			case "none", "slow":
+			case "late", "hang":
+				if c.Service == "immediate" {
+					return "delay"
+				}
+			default:
 				return "delay"
 			}
-		default:
-			return "delay"
 		}
 	}
 	return ""
 }
 
 func run(c *Case) *obs {
-	o := &obs{}
+	o := &obs{steps: make([]stepObs, len(c.Steps))}
 	zerolog.SetGlobalLevel(zerolog.Disabled)
-	ctx, cancel := context.WithCancel(context.Background())
-	defer cancel()
+	parent, cancelAll := context.WithCancel(context.Background())
+	defer cancelAll()
 
-	p := newPayload(c)
-	w := &world{c: c, p: p, release: make(chan struct{})}
-	before := p.dump()
+	w := &world{c: c, releaseAll: make(chan struct{}), starts: make([]time.Time, len(c.Steps))}
+	var before []string
+	used := map[string]bool{}
+	for s := range c.Steps {
+		p := newPayload(&c.Steps[s], c.PC+s)
+		w.pls = append(w.pls, p)
+		before = append(before, p.dump())
+		w.stepRelease = append(w.stepRelease, make(chan struct{}))
+		used[c.Steps[s].Kind] = true
+	}
 	var nodes []*node
 	for i := range c.Nodes {
-		nodes = append(nodes, &node{w: w, name: fmt.Sprintf("node-%d", i), spec: &c.Nodes[i]})
+		nodes = append(nodes, &node{w: w, idx: i, name: fmt.Sprintf("node-%d", i), id: &c.Nodes[i]})
 	}
 	decoy := &node{w: w, name: "decoy"}
 
@@ -828,7 +1046,7 @@ func run(c *Case) *obs {
 	if c.Service == "immediate" {
 		// the immediate submitter has one node for everything
 		n := nodes[0].iface()
-		s, err := immediate.New(ctx,
+		s, err := immediate.New(parent,
 			immediate.WithLogLevel(zerolog.Disabled),
 			immediate.WithAttestationsSubmitter(n), immediate.WithProposalSubmitter(n), immediate.WithAggregateAttestationsSubmitter(n),
 			immediate.WithSyncCommitteeMessagesSubmitter(n), immediate.WithSyncCommitteeContributionsSubmitter(n),
@@ -840,19 +1058,18 @@ func run(c *Case) *obs {
 		}
 		svc = s
 	} else {
-		k := c.Kind
-		s, err := multinode.New(ctx,
+		s, err := multinode.New(parent,
 			multinode.WithLogLevel(zerolog.Disabled),
 			multinode.WithTimeout(timeout),
 			multinode.WithProcessConcurrency(int64(c.PC)),
-			multinode.WithAttestationsSubmitters(mapOf[eth2client.AttestationsSubmitter](k, "attestations", nodes, decoy)),
-			multinode.WithProposalSubmitters(mapOf[eth2client.ProposalSubmitter](k, "proposal", nodes, decoy)),
-			multinode.WithAggregateAttestationsSubmitters(mapOf[eth2client.AggregateAttestationsSubmitter](k, "aggregates", nodes, decoy)),
-			multinode.WithSyncCommitteeMessagesSubmitters(mapOf[eth2client.SyncCommitteeMessagesSubmitter](k, "syncmessages", nodes, decoy)),
-			multinode.WithSyncCommitteeContributionsSubmitters(mapOf[eth2client.SyncCommitteeContributionsSubmitter](k, "contributions", nodes, decoy)),
-			multinode.WithBeaconCommitteeSubscriptionsSubmitters(mapOf[eth2client.BeaconCommitteeSubscriptionsSubmitter](k, "beaconsubs", nodes, decoy)),
-			multinode.WithSyncCommitteeSubscriptionsSubmitters(mapOf[eth2client.SyncCommitteeSubscriptionsSubmitter](k, "syncsubs", nodes, decoy)),
-			multinode.WithProposalPreparationsSubmitters(mapOf[eth2client.ProposalPreparationsSubmitter](k, "preparations", nodes, decoy)),
+			multinode.WithAttestationsSubmitters(mapOf[eth2client.AttestationsSubmitter](used, "attestations", nodes, decoy)),
+			multinode.WithProposalSubmitters(mapOf[eth2client.ProposalSubmitter](used, "proposal", nodes, decoy)),
+			multinode.WithAggregateAttestationsSubmitters(mapOf[eth2client.AggregateAttestationsSubmitter](used, "aggregates", nodes, decoy)),
+			multinode.WithSyncCommitteeMessagesSubmitters(mapOf[eth2client.SyncCommitteeMessagesSubmitter](used, "syncmessages", nodes, decoy)),
+			multinode.WithSyncCommitteeContributionsSubmitters(mapOf[eth2client.SyncCommitteeContributionsSubmitter](used, "contributions", nodes, decoy)),
+			multinode.WithBeaconCommitteeSubscriptionsSubmitters(mapOf[eth2client.BeaconCommitteeSubscriptionsSubmitter](used, "beaconsubs", nodes, decoy)),
+			multinode.WithSyncCommitteeSubscriptionsSubmitters(mapOf[eth2client.SyncCommitteeSubscriptionsSubmitter](used, "syncsubs", nodes, decoy)),
+			multinode.WithProposalPreparationsSubmitters(mapOf[eth2client.ProposalPreparationsSubmitter](used, "preparations", nodes, decoy)),
 		)
 		if err != nil {
 			o.harness = "cannot construct multinode submitter: " + err.Error()
@@ -866,67 +1083,98 @@ func run(c *Case) *obs {
 		r        time.Duration
 		panicked string
 	}
-	done := make(chan result, 1)
-	w.start = time.Now()
-	go func() {
-		var res result
-		defer func() {
-			if x := recover(); x != nil {
-				res.panicked = fmt.Sprintf("%v\n%s", x, debug.Stack())
-				res.r = time.Since(w.start)
-			}
-			done <- res
-		}()
-		res.err = submit(ctx, svc, c.Kind, p)
-		res.r = time.Since(w.start)
-	}()
-
 	limit := timeout + returnGuard
 	if c.Service == "immediate" {
 		limit = immediateSlow + returnGuard
 	}
-	var res result
-	select {
-	case res = <-done:
-		o.returned = true
-	case <-time.After(time.Until(w.start.Add(limit))):
-	}
-
-	o.nodes = make([]nodeObs, len(nodes))
-	fullAll := func() bool {
-		all := true
-		for i, n := range nodes {
-			ids, _, _, _ := n.snapshot()
-			if exact(ids, c.Items) {
-				o.nodes[i].fullEarly = true
-			} else {
-				all = false
-			}
+	enough := c.Service == "multinode" && c.PC >= len(nodes)
+	abandoned := false
+	for s := range c.Steps {
+		st := &c.Steps[s]
+		so := &o.steps[s]
+		so.ran = true
+		so.nodes = make([]nodeObs, len(nodes))
+		p := w.pls[s]
+		ctx, cancel := context.WithCancel(parent)
+		defer cancel()
+		w.cur.Store(int64(s))
+		done := make(chan result, 1)
+		if st.Cancel == "pre" {
+			cancel()
 		}
-		return all
-	}
-	if o.returned && c.Service == "multinode" && c.PC >= len(nodes) {
-		// (d): with enough process concurrency every node is offered everything
-		// while the bad nodes are still bad.
-		deadline := time.Now().Add(deliverCeil)
-		for !fullAll() && time.Now().Before(deadline) {
-			time.Sleep(500 * time.Microsecond)
+		start := time.Now()
+		w.starts[s] = start
+		if st.Cancel != "" && st.Cancel != "pre" {
+			tm := time.AfterFunc(cancelAt[st.Cancel], cancel)
+			defer tm.Stop()
 		}
-	} else {
-		fullAll()
-	}
-	o.releasedAt = time.Since(w.start)
-	close(w.release)
-	if !o.returned {
-		// it had not returned by the limit (a violation of the time bound whatever happens now);
-		// give it the chance to finish so that nothing is left behind
+		go func() {
+			var res result
+			defer func() {
+				if x := recover(); x != nil {
+					res.panicked = fmt.Sprintf("%v\n%s", x, debug.Stack())
+					res.r = time.Since(start)
+				}
+				done <- res
+			}()
+			res.err = submit(ctx, svc, st.Kind, p)
+			res.r = time.Since(start)
+		}()
+		var res result
 		select {
 		case res = <-done:
-		case <-time.After(quiesceCeil):
+			so.returned = true
+		case <-time.After(time.Until(start.Add(limit))):
 		}
-		res.r = time.Since(w.start)
+		fullAll := func() bool {
+			all := true
+			for i, n := range nodes {
+				if exact(n.snapshot(s).ids, st.Items) {
+					so.nodes[i].fullEarly = true
+				} else {
+					all = false
+				}
+			}
+			return all
+		}
+		if so.returned && enough && st.Cancel == "" {
+			// isolation: with enough process concurrency every node is offered everything
+			// while the bad nodes (of this and of earlier submissions) are still bad
+			deadline := time.Now().Add(deliverCeil)
+			for !fullAll() && time.Now().Before(deadline) {
+				time.Sleep(500 * time.Microsecond)
+			}
+		} else {
+			fullAll()
+		}
+		so.releasedAt = time.Since(start)
+		close(w.stepRelease[s])
+		so.r, so.err, so.panicked = res.r, res.err, res.panicked
+		if !so.returned {
+			// The call has not returned by timeout + guard: a violation of the time bound whatever
+			// happens now.  Its goroutine is abandoned and the history ends here.
+			abandoned = true
+			break
+		}
+		// let the answers of the nodes that are not meant to stay pending come in before the next step
+		deadline := time.Now().Add(quiesceCeil)
+		for time.Now().Before(deadline) {
+			busy := false
+			for i, n := range nodes {
+				if d := st.Nodes[i].Delay; d == "late" || d == "hang" {
+					continue
+				}
+				if n.snapshot(s).inflight > 0 {
+					busy = true
+				}
+			}
+			if !busy {
+				break
+			}
+			time.Sleep(200 * time.Microsecond)
+		}
 	}
-	o.r, o.err, o.panicked = res.r, res.err, res.panicked
+	close(w.releaseAll)
 
 	// quiescence: nothing in flight and (every node offered everything, or nothing moves any more)
 	deadline := time.Now().Add(quiesceCeil)
@@ -934,12 +1182,17 @@ func run(c *Case) *obs {
 	lastCalls := -1
 	for time.Now().Before(deadline) {
 		inflight, complete, calls := 0, true, 0
-		for _, n := range nodes {
-			ids, inf, _, nc := n.snapshot()
-			inflight += inf
-			calls += nc
-			if len(ids) < c.Items {
-				complete = false
+		for s := range c.Steps {
+			if !o.steps[s].ran {
+				continue
+			}
+			for _, n := range nodes {
+				sn := n.snapshot(s)
+				inflight += sn.inflight
+				calls += sn.ncalls
+				if len(sn.ids) < c.Steps[s].Items && c.Steps[s].Cancel == "" && o.steps[s].returned {
+					complete = false
+				}
 			}
 		}
 		if inflight == 0 && complete {
@@ -957,150 +1210,227 @@ func run(c *Case) *obs {
 		time.Sleep(time.Millisecond)
 	}
 	time.Sleep(2 * time.Millisecond) // room for a surplus call to show up
-	for i, n := range nodes {
-		ids, inf, last, nc := n.snapshot()
-		no := &o.nodes[i]
-		no.class, no.ok = classOf(c.Kind, n.spec)
-		no.ids = ids
-		no.full = exact(ids, c.Items)
-		no.done = inf == 0 && nc > 0
-		no.finished = last
-		no.ncalls = nc
-		if inf != 0 {
-			o.harness = "a node call is still in flight after release"
+	for s := range c.Steps {
+		so := &o.steps[s]
+		if !so.ran {
+			continue
 		}
+		for i, n := range nodes {
+			sn := n.snapshot(s)
+			no := &so.nodes[i]
+			no.class, no.ok = classOf(c.Steps[s].Kind, n.id, &c.Steps[s].Nodes[i])
+			if sn.aborted {
+				no.class, no.ok = "aborted", "no"
+			}
+			no.ids = sn.ids
+			no.full = exact(sn.ids, c.Steps[s].Items)
+			no.sound = soundIDs(sn.ids, c.Steps[s].Items)
+			no.done = sn.inflight == 0 && sn.ncalls > 0
+			no.finished = sn.lastLeave
+			no.ncalls = sn.ncalls
+			if sn.inflight != 0 && !abandoned {
+				o.harness = "a node call is still in flight after release"
+			}
+		}
+		so.mutated = w.pls[s].dump() != before[s]
 	}
 	w.mu.Lock()
 	o.wrong = append(o.wrong, w.wrong...)
 	w.mu.Unlock()
-	o.mutated = p.dump() != before
 	return o
 }
 
 func judge(t ev.TB, c *Case, o *obs) {
-	k := c.Kind
+	if len(o.wrong) > 0 {
+		violation(t, "wrong-node-called", c, "%s", strings.Join(o.wrong, "; "))
+	}
+	for s := range c.Steps {
+		if o.steps[s].ran && !judgeStep(t, c, o, s) {
+			return
+		}
+	}
+}
+
+// judgeStep returns false when the rest of the history cannot be judged.
+func judgeStep(t ev.TB, c *Case, o *obs, s int) bool {
+	st := &c.Steps[s]
+	so := &o.steps[s]
+	k := st.Kind
+	where := fmt.Sprintf("step %d/%d (%s", s+1, len(c.Steps), k)
+	if st.Cancel != "" {
+		where += ", caller's context cancelled: " + st.Cancel
+	}
+	where += ")"
 	svcTag := ""
 	if c.Service == "immediate" {
 		svcTag = "immediate-"
 	}
-	if o.panicked != "" {
-		ev.Violation(t, "panic:"+svcTag+k, c, "submission panicked: %s", o.panicked)
-		return
+	if so.panicked != "" {
+		violation(t, "panic:"+svcTag+k, c, "%s: submission panicked: %s", where, so.panicked)
+		return false
 	}
-	if len(o.wrong) > 0 {
-		ev.Violation(t, svcTag+"wrong-node-called:"+k, c, "%s", strings.Join(o.wrong, "; "))
-	}
-	if o.mutated {
-		ev.Violation(t, svcTag+"payload-mutated:"+k, c, "the submitted objects were modified by the submitter")
+	if so.mutated {
+		violation(t, svcTag+"payload-mutated:"+k, c, "%s: the submitted objects were modified by the submitter", where)
 	}
 
-	// (c) time bound
-	if c.Service == "multinode" && (!o.returned || o.r > timeout+returnGuard) {
-		ev.Violation(t, "late-return:"+k, c, "timeout %v but the call had not returned after %v (released nodes at %v)", timeout, timeout+returnGuard, o.releasedAt)
-		return
+	// (c) time bound -- whatever the caller's context does
+	if c.Service == "multinode" && (!so.returned || so.r > timeout+returnGuard) {
+		violation(t, "late-return:"+k, c, "%s: timeout %v but the call had not returned after %v", where, timeout, timeout+returnGuard)
+		return false
 	}
-	if c.Service == "immediate" && !o.returned {
-		ev.Violation(t, "immediate-no-return:"+k, c, "node answered within 100 ms but the call had not returned after %v", immediateSlow+returnGuard)
-		return
+	if c.Service == "immediate" && !so.returned {
+		violation(t, "immediate-no-return:"+k, c, "%s: node answered within 100 ms but the call had not returned after %v", where, immediateSlow+returnGuard)
+		return false
 	}
 
 	// (a)+(d) delivery
 	enough := c.Service == "immediate" || c.PC >= len(c.Nodes)
-	for i := range o.nodes {
-		no := &o.nodes[i]
+	for i := range so.nodes {
+		no := &so.nodes[i]
+		if st.Cancel != "" {
+			// only soundness: what was offered is part of the submission, nothing twice
+			if !no.sound {
+				violation(t, svcTag+"payload-mismatch:"+k, c, "%s: node %d was offered items %v over %d call(s); submitted were 0..%d", where, i, no.ids, no.ncalls, st.Items-1)
+				return false
+			}
+			continue
+		}
 		if enough && !no.fullEarly {
-			ev.Violation(t, svcTag+"not-delivered:"+k, c, "process concurrency %d >= %d nodes, but node %d had been offered items %v of 0..%d while the slow/hanging nodes were still pending (%v after the call returned at %v)",
-				c.PC, len(c.Nodes), i, no.ids, c.Items-1, deliverCeil, o.r)
-			return
+			violation(t, svcTag+"not-delivered:"+k, c, "%s: process concurrency %d >= %d nodes, but node %d had been offered items %v of 0..%d while the slow/hanging nodes were still pending (%v after the call returned at %v with %v); nodes: %s",
+				where, c.PC, len(c.Nodes), i, no.ids, st.Items-1, deliverCeil, so.r, so.err, describe(so))
+			return false
 		}
 		if no.ncalls > 0 && !no.full {
-			ev.Violation(t, svcTag+"payload-mismatch:"+k, c, "node %d was offered items %v over %d call(s); submitted were 0..%d exactly once", i, no.ids, no.ncalls, c.Items-1)
-			return
+			violation(t, svcTag+"payload-mismatch:"+k, c, "%s: node %d was offered items %v over %d call(s); submitted were 0..%d exactly once", where, i, no.ids, no.ncalls, st.Items-1)
+			return false
 		}
 	}
 
 	// (b) outcome
-	success := o.err == nil
+	success := so.err == nil
 	var okEarly, okBeforeReturn bool
 	suspects := map[string]bool{}
-	for i := range o.nodes {
-		no := &o.nodes[i]
+	for i := range so.nodes {
+		no := &so.nodes[i]
 		if !no.done || !no.full {
 			continue
 		}
-		if no.ok {
-			if no.finished < o.r {
-				okBeforeReturn = true
-			}
-			if no.finished <= earlyBy {
-				okEarly = true
-			}
-		} else if no.finished < o.r {
+		if no.ok != "no" && no.finished < so.r {
+			okBeforeReturn = true
+		}
+		if no.ok == "yes" && no.finished <= earlyBy {
+			okEarly = true
+		}
+		if no.ok == "no" && no.finished < so.r {
 			suspects[no.class] = true
 		}
 	}
 	if c.Service == "immediate" {
-		no := &o.nodes[0]
+		no := &so.nodes[0]
 		switch {
 		case no.class == "accept" && !success:
-			ev.Violation(t, "immediate-missed-success:"+k, c, "the node accepted but the submitter returned %v", o.err)
-		case no.class == "tolerated":
+			violation(t, "immediate-missed-success:"+k, c, "%s: the node accepted but the submitter returned %v", where, so.err)
+		case no.class == "tolerated" || no.class == "tolerated-version-unavailable":
 			// the immediate submitter tolerates nothing; the statement's toleration clause is about
 			// what Vouch deliberately tolerates, so either answer is taken
 			ev.Label("immediate-tolerated-text-not-judged")
-		case !no.ok && success:
-			ev.Violation(t, "immediate-false-success:"+k+":"+no.class, c, "the node rejected (%s) but the submitter reported success", no.class)
+		case no.ok == "no" && success:
+			violation(t, "immediate-false-success:"+k+":"+no.class, c, "%s: the node rejected (%s) but the submitter reported success", where, no.class)
 		}
-		return
+		return true
 	}
 	if success && !okBeforeReturn {
-		order := []string{"mixed", "nofailures", "malformed", "misplaced", "reject"}
+		order := []string{"mixed", "nofailures", "malformed", "misplaced", "reject", "aborted"}
 		var present []string
 		for _, cl := range order {
 			if suspects[cl] {
 				present = append(present, cl)
 			}
 		}
-		detail := fmt.Sprintf("success reported at %v although no node had, by then, accepted or rejected only for a tolerated reason; nodes finished before that: %v; all nodes: %s", o.r, present, describe(o))
+		detail := fmt.Sprintf("%s: success reported at %v although no node had, by then, accepted or rejected only for a tolerated reason; nodes finished before that: %v; all nodes: %s", where, so.r, present, describe(so))
 		if len(present) == 0 {
-			ev.Violation(t, "false-success:"+k+":nobody-finished", c, "%s", detail)
-			return
+			violation(t, "false-success:"+k+":nobody-finished", c, "%s", detail)
+			return true
 		}
 		// A listed open finding explains the false success of every case that contains its class;
 		// such a case cannot tell anything about the other classes present.
 		for _, cl := range present {
 			if sig := "false-success:" + k + ":" + cl; ev.IsKnown(sig) {
-				ev.Violation(t, sig, c, "%s", detail)
-				return
+				violation(t, sig, c, "%s", detail)
+				return true
 			}
 		}
-		ev.Violation(t, "false-success:"+k+":"+present[0], c, "%s", detail)
-		return
+		violation(t, "false-success:"+k+":"+present[0], c, "%s", detail)
+		return true
 	}
-	if !success && okEarly {
+	if !success && okEarly && st.Cancel == "" {
 		cl := ""
-		for i := range o.nodes {
-			if no := &o.nodes[i]; no.ok && no.done && no.full && no.finished <= earlyBy {
+		for i := range so.nodes {
+			if no := &so.nodes[i]; no.ok == "yes" && no.done && no.full && no.finished <= earlyBy {
 				cl = no.class
 				break
 			}
 		}
-		ev.Violation(t, "missed-success:"+k+":"+cl, c, "error %q returned at %v although a node had answered (%s) within %v of a %v timeout; nodes: %s", o.err, o.r, cl, earlyBy, timeout, describe(o))
+		violation(t, "missed-success:"+k+":"+cl, c, "%s: error %q returned at %v although a node had answered (%s) within %v of a %v timeout; nodes: %s", where, so.err, so.r, cl, earlyBy, timeout, describe(so))
 	}
+	return true
 }
 
-func describe(o *obs) string {
+func describe(so *stepObs) string {
 	var b strings.Builder
-	for i := range o.nodes {
-		no := &o.nodes[i]
-		fmt.Fprintf(&b, "[%d %s ok=%v done=%v at=%v calls=%d]", i, no.class, no.ok, no.done, no.finished, no.ncalls)
+	for i := range so.nodes {
+		no := &so.nodes[i]
+		fmt.Fprintf(&b, "[%d %s ok=%s done=%v at=%v calls=%d]", i, no.class, no.ok, no.done, no.finished, no.ncalls)
 	}
 	return b.String()
+}
+
+// Shrink-cost control.  A failing case of this check can cost seconds (a call
+// that never returns is only known to be late after timeout + guard), and
+// rapid's shrinker tries hundreds of candidates per block.  Two measures keep a
+// failing run inside the budget, neither of which can make a silent tree fail:
+// a case that was already judged as violating is re-reported from memory when
+// rapid presents it again, and once shrinkBudget has passed since the first
+// violation of this process further (new) candidates are not executed, which
+// ends the shrinking with the smallest failing case found so far.
+const shrinkBudget = 15 * time.Second
+
+var (
+	shrinkMu       sync.Mutex
+	firstViolation time.Time
+	memo           = map[uint64][2]string{}
+)
+
+func violation(t ev.TB, sig string, c *Case, format string, args ...any) bool {
+	detail := fmt.Sprintf(format, args...)
+	if !ev.IsKnown(sig) {
+		shrinkMu.Lock()
+		if firstViolation.IsZero() {
+			firstViolation = time.Now()
+		}
+		memo[ev.Hash(c)] = [2]string{sig, detail}
+		shrinkMu.Unlock()
+	}
+	return ev.Violation(t, sig, c, "%s", detail)
 }
 
 func check(t ev.TB, c *Case) {
 	if why := validCase(c); why != "" {
 		t.Fatalf("harness: invalid case (%s)", why)
+	}
+	if ev.ReplayFile() == "" {
+		shrinkMu.Lock()
+		m, seen := memo[ev.Hash(c)]
+		exhausted := !firstViolation.IsZero() && time.Since(firstViolation) > shrinkBudget
+		shrinkMu.Unlock()
+		if seen {
+			ev.Violation(t, m[0], c, "%s", m[1])
+			return
+		}
+		if exhausted {
+			ev.Label("not-executed:shrink-budget-exhausted")
+			return
+		}
 	}
 	o := run(c)
 	if o.harness != "" {
@@ -1109,63 +1439,101 @@ func check(t ev.TB, c *Case) {
 	}
 
 	// evidence
-	classes := map[string]bool{}
-	behaviours := map[string]bool{}
-	tolerated := false
-	labels := []string{"service:" + c.Service, "kind:" + c.Kind, "nodes:" + strconv.Itoa(len(c.Nodes))}
-	for i := range c.Nodes {
-		cl, _ := classOf(c.Kind, &c.Nodes[i])
-		classes[cl] = true
-		behaviours[cl+"/"+c.Nodes[i].Delay] = true
-		if cl == "tolerated" {
-			tolerated = true
+	labelSet := map[string]bool{"service:" + c.Service: true, "nodes:" + strconv.Itoa(len(c.Nodes)): true, "steps:" + strconv.Itoa(len(c.Steps)): true}
+	nontrivial := len(c.Steps) >= 2
+	if c.PC < len(c.Nodes) {
+		labelSet["pc<nodes"] = true
+	} else if c.PC == len(c.Nodes) {
+		labelSet["pc=nodes"] = true
+	}
+	kindsSeen := map[string]int{}
+	pendingBefore := false // a late/hanging node of an earlier step is still pending
+	for s := range c.Steps {
+		st := &c.Steps[s]
+		so := &o.steps[s]
+		kindsSeen[st.Kind]++
+		labelSet["kind:"+st.Kind] = true
+		if st.Cancel != "" {
+			labelSet["cancel:"+st.Cancel] = true
+		}
+		if pendingBefore {
+			labelSet["step-with-node-still-pending-from-earlier-step"] = true
+		}
+		behaviours := map[string]bool{}
+		for i := range st.Nodes {
+			cl, _ := classOf(st.Kind, &c.Nodes[i], &st.Nodes[i])
+			behaviours[cl+"/"+st.Nodes[i].Delay] = true
+			labelSet["class:"+cl] = true
+			labelSet["delay:"+st.Nodes[i].Delay] = true
+			if cl == "tolerated" {
+				nontrivial = true
+				for e := 0; e < s; e++ {
+					if c.Steps[e].Nodes[i].VersionFail {
+						labelSet["tolerated-after-version-failure-in-earlier-step"] = true
+					}
+				}
+			}
+			if st.Nodes[i].VersionFail {
+				labelSet["version-fail"] = true
+			}
+			if d := st.Nodes[i].Delay; d == "late" || d == "hang" {
+				pendingBefore = true
+			}
+		}
+		if len(behaviours) >= 2 {
+			nontrivial = true
+		}
+		if st.Kind == "attestations" && st.Items > c.PC && c.PC > 1 {
+			labelSet["chunked"] = true
+			nontrivial = true
+		}
+		if !so.ran {
+			continue
+		}
+		if so.returned {
+			if so.err == nil {
+				labelSet["result:success"] = true
+				if so.r < timeout-50*time.Millisecond {
+					labelSet["returned-early"] = true
+				}
+			} else {
+				labelSet["result:failure"] = true
+			}
+		}
+		okPlanned, okEarly, okBand := false, false, false
+		for i := range so.nodes {
+			no := &so.nodes[i]
+			if no.ok == "yes" && (st.Nodes[i].Delay == "none" || st.Nodes[i].Delay == "slow") && c.PC >= len(c.Nodes) && st.Cancel == "" {
+				okPlanned = true
+			}
+			if no.ok == "yes" && no.done && no.full {
+				if no.finished <= earlyBy {
+					okEarly = true
+				} else if no.finished < so.r {
+					okBand = true
+				}
+			}
+		}
+		if okPlanned && !okEarly {
+			labelSet["perturbed"] = true
+		}
+		if okBand && !okEarly {
+			labelSet["band-not-judged"] = true
 		}
 	}
-	for cl := range classes {
-		labels = append(labels, "class:"+cl)
+	for _, n := range kindsSeen {
+		if n >= 2 {
+			labelSet["same-kind-repeated"] = true
+		}
 	}
-	for i := range c.Nodes {
-		labels = append(labels, "delay:"+c.Nodes[i].Delay)
+	if len(kindsSeen) >= 2 {
+		labelSet["mixed-kinds"] = true
+	}
+	var labels []string
+	for l := range labelSet {
+		labels = append(labels, l)
 	}
 	sort.Strings(labels)
-	chunked := c.Kind == "attestations" && c.Items > c.PC && c.PC > 1
-	if chunked {
-		labels = append(labels, "chunked")
-	}
-	if c.PC < len(c.Nodes) {
-		labels = append(labels, "pc<nodes")
-	}
-	if o.returned {
-		if o.err == nil {
-			labels = append(labels, "result:success")
-			if o.r < timeout-50*time.Millisecond {
-				labels = append(labels, "returned-early")
-			}
-		} else {
-			labels = append(labels, "result:failure")
-		}
-	}
-	okPlanned, okEarly, okBand := false, false, false
-	for i := range o.nodes {
-		no := &o.nodes[i]
-		if no.ok && (c.Nodes[i].Delay == "none" || c.Nodes[i].Delay == "slow") && c.PC >= len(c.Nodes) {
-			okPlanned = true
-		}
-		if no.ok && no.done && no.full {
-			if no.finished <= earlyBy {
-				okEarly = true
-			} else if no.finished < o.r {
-				okBand = true
-			}
-		}
-	}
-	if okPlanned && !okEarly {
-		labels = append(labels, "perturbed")
-	}
-	if okBand && !okEarly {
-		labels = append(labels, "band-not-judged")
-	}
-	nontrivial := len(behaviours) >= 2 || chunked || tolerated
 	ev.Case(nontrivial, ev.Hash(c), labels...)
 	if nontrivial {
 		ev.Sample(c)
